@@ -95,11 +95,20 @@ def run(ctx):
             bad = bad or "CAS success order %s" % c.order
         isblob = lambda n: (n.k == "ImplicitCastExpr" and n.ck == "LValueToRValue" and strip(n).k == "MemberExpr" and strip(n).field == "blob"
                             and Machine(f, P).locate(n.kids[0]) is None)
-        for t, u in ((0, 0), (3, 3), (3, 5), (7, 9), (4294967295, 4294967295), (4294967294, 4294967295)):
+        for t, u in ((0, 0), (3, 3), (3, 5), (7, 9), (4294967295, 4294967295), (4294967294, 4294967295),
+                     (4294967295, 0), (4294967294, 1), (5, 3)):
             S = (u << 32) | t
             m = Machine(f, P, atom_from([(isblob, S)]))
             try:
-                hit = m.run("entry", lambda n: n is c.node)
+                hit = m.run("entry", lambda n: n is c.node or n.k == "ReturnStmt")
+                if hit is not None and hit.k == "ReturnStmt":
+                    # an early exit without attempting the CAS: legal exactly for a word that is visibly not free
+                    rv = m.eval(hit.kids[0])
+                    if t == u:
+                        bad = bad or "snapshot (ticket=%d, users=%d) is a free lock but trylock gives up without trying" % (t, u)
+                    elif rv != 0:
+                        bad = bad or "snapshot (ticket=%d, users=%d): trylock returns %s without a CAS" % (t, u, rv)
+                    continue
                 if hit is None:
                     raise Unevaluable("CAS not reached")
                 e = strip(c.expected)
@@ -113,7 +122,10 @@ def run(ctx):
                 raise AnalysisBroken("trylock: cannot interpret the word construction (%s)" % ex)
             want_exp = (u << 32) | u
             want_des = (((u + 1) & 0xFFFFFFFF) << 32) | u
-            if exp != want_exp:
+            if exp is not None and (exp & 0xFFFFFFFF) != (exp >> 32):
+                bad = bad or ("snapshot (ticket=%d, users=%d): the CAS expects the word %#x in which ticket != users, i.e. it can succeed on a lock that is "
+                              "held or has waiters queued (32-bit wrap-around makes `users > ticket` differ from `users != ticket`)" % (t, u, exp))
+            elif exp != want_exp:
                 bad = bad or "snapshot (ticket=%d, users=%d): CAS expects %#x, should expect %#x (unlocked word only)" % (t, u, exp or -1, want_exp)
             if des != want_des:
                 bad = bad or "snapshot (ticket=%d, users=%d): CAS installs %#x, should install %#x" % (t, u, des, want_des)
